@@ -1432,6 +1432,26 @@ where
         };
         let seed = hseed(&[ctx.seed, si as u64, 0x7EE]);
         ctx.eval(1);
+        // the object that lived through the history vs a clone and vs a fresh build from the same list: identical
+        // samples on the same stream (a cache that survives a mutation is not carried by Clone / new)
+        if tree.is_valid() {
+            let fresh = if W::IS_FLOAT { None } else { WeightedTreeIndex::<W>::new(model.iter().map(|&m| W::from_m(m)).collect::<Vec<W>>()).ok() };
+            let cl = tree.clone();
+            let (mut r0, mut r1, mut r2) = (VRng::from_env(seed ^ 0xC1), VRng::from_env(seed ^ 0xC1), VRng::from_env(seed ^ 0xC1));
+            for k in 0..256 {
+                let a = catch(|| tree.try_sample(&mut r0));
+                let b = catch(|| cl.try_sample(&mut r1));
+                let c = fresh.as_ref().map(|f| catch(|| f.try_sample(&mut r2)));
+                let (fa, fb) = (format!("{:?}", a), format!("{:?}", b));
+                if a.is_err() || b.is_err() {
+                    break; // panics are judged below
+                }
+                if fa != fb || c.as_ref().map(|c| format!("{:?}", c) != fa).unwrap_or(false) {
+                    viol(ctx, "WeightedTreeIndex", W::NAME, "history_dependent_sample", "history", format!("WeightedTreeIndex<{}> {} after {} mutations (built with sampling between operations: {}): draw {} is {} on the object that lived through the history, {} on its clone{}", W::NAME, show(&model), muts, si % 2 == 1, k, fa, fb, c.map(|c| format!(", {:?} on a fresh build", c)).unwrap_or_default()), json!({"kind": "tree", "tree": TreeCase { wt: W::NAME.into(), ops: if ops.len() <= 400 { ops.clone() } else { vec![] } }}));
+                    break;
+                }
+            }
+        }
         let nz = model.iter().filter(|m| !m.is_zero()).count();
         let zero_inner = model.iter().enumerate().any(|(i, m)| m.is_zero() && 2 * i + 1 < model.len());
         if (nz >= 2 && muts >= 1) || zero_inner {
